@@ -1,6 +1,6 @@
 SPECIFICATION Spec
 CONSTANTS
   DoExport = TRUE
-  EnvNames = {"A", "B", "C", "Z", "A2", "UNRELATED"}
+  EnvNames = {"A", "B", "C", "Z", "A2", "UNRELATED", "command", "plugins", "repository_url"}
 INVARIANTS InvImplEqualsRule InvCatalogue Export
 CHECK_DEADLOCK FALSE
